@@ -112,6 +112,12 @@ func decorate(r *rand.Rand, c *Case, calls []CallSpec, prefixOf map[string]strin
 			}
 		}
 	}
+	// one call site in four is an argument of a builtin call (append / panic): still a call to register and rename
+	for i := range calls {
+		if calls[i].Inner == "" && r.Intn(4) == 0 {
+			calls[i].Builtin = []string{"append", "panic"}[r.Intn(2)]
+		}
+	}
 	c.OtherFile = []string{"0_other.go", "m_other.go", "z_other.go"}[r.Intn(3)]
 	if len(calls) >= 2 && r.Intn(2) == 0 {
 		cut := 1 + r.Intn(len(calls)-1)
@@ -1019,5 +1025,62 @@ func TwoPackagesC11() []*Case {
 			}
 		}
 	}
+	return out
+}
+
+// TagsC11 (struct tags are part of a type): all sequences of <= 2 equal calls over 2 names x
+// {[]struct{ID int}, []struct{ID int `json:"id"`}, struct{…} with and without the tag}.
+func TagsC11(r *rand.Rand) []*Case {
+	typs := []TypeSpec{
+		{Go: "[]struct{ ID int }", Wire: "(sl (st int))"},
+		{Go: "[]struct {\n\tID int `json:\"id\"`\n}", Wire: "(sl (stt id int))"},
+		{Go: "struct{ ID int }", Wire: "(st int)"},
+		{Go: "struct {\n\tID int `json:\"id\"`\n}", Wire: "(stt id int)"},
+	}
+	return smallExhaustive(r, "tags", "tg", typs, "equal", 2, []string{"deriveEqual", "deriveEqual_"}, 2)
+}
+
+// IfaceC11: interface types next to types that implement them (a concrete type is NOT served by the
+// function for an interface it implements: two functions, nothing merged under -dedup): all sequences of
+// <= 2 one-argument deriveTuple calls over 2 names x {error, *MyErr, Str, *T1, interface{}, int}.
+func IfaceC11(r *rand.Rand) []*Case {
+	decl := "type MyErr struct{ M string }\n\nfunc (e *MyErr) Error() string { return e.M }\n\ntype Str interface{ String() string }\n\ntype T1 struct{ N int }\n\nfunc (t *T1) String() string { return \"t\" }"
+	typs := []TypeSpec{
+		{Go: "error", Wire: "error", Decl: decl},
+		{Go: "*MyErr", Wire: "(p (nmm 0 MyErr (st string) Error))", Decl: decl},
+		{Go: "Str", Wire: "(nm 0 Str (if String))", Decl: decl},
+		{Go: "*T1", Wire: "(p (nmm 0 T1 (st int) String))", Decl: decl},
+		{Go: "interface{}", Wire: "iface", Decl: decl},
+		{Go: "int", Wire: "int", Decl: decl},
+	}
+	return smallExhaustive(r, "iface", "if", typs, "tuple", 1, []string{"deriveTuple", "deriveTuple_"}, 2)
+}
+
+func smallExhaustive(r *rand.Rand, stream, idp string, typs []TypeSpec, plugin string, ar int, names []string, k int) []*Case {
+	plugins := Plugins("derive", nil)
+	pfx := map[string]string{}
+	for _, p := range plugins {
+		pfx[p.Name] = p.Prefix
+	}
+	var out []*Case
+	var rec func(cur []CallSpec)
+	rec = func(cur []CallSpec) {
+		if len(cur) > 0 {
+			c := &Case{ID: fmt.Sprintf("%s%d", idp, len(out)), Stream: stream, Types: typs, Plugins: plugins, Variants: AllVariants}
+			decorate(r, c, append([]CallSpec(nil), cur...), map[string]string{plugin: pfx[plugin]})
+			out = append(out, c)
+		}
+		if len(cur) == k {
+			return
+		}
+		for _, n := range names {
+			for t := range typs {
+				cl := Call(plugin, n, t)
+				cl.Arity = ar
+				rec(append(append([]CallSpec(nil), cur...), cl))
+			}
+		}
+	}
+	rec(nil)
 	return out
 }
